@@ -8,7 +8,7 @@ COMMON_TRUSTED = [
 ]
 
 NOT_APPLICABLE = {}
-HOOK_COMMITS = []
+HOOK_COMMITS = ["159567f verif hook H4: msgpacker memory protector reset/read (build tag verif)"]
 
 PROPS = {
     "C16": {
@@ -21,5 +21,14 @@ PROPS = {
         "trusted": ["tools/go2coq translator for util.average (unverified; its output is also covered by the differential harness)"],
         "assumptions": ["callers follow the manager discipline (assign only when the key has no handler and CheckKeyNotExist holds); AddKeyValue alone overwrites",
                         "channel counts are non-negative (Go int modelled as N)"],
+    },
+    "C14": {
+        "harness": "h_c14",
+        "n": {"quick": 3000, "thorough": 30000, "search": 6000},
+        "level_text": "Theorems (Coq, closed under the global context) over an executable model of Packer.Receive/ClearMsgs, both checkers and the shared MemoryProtector: for every configuration, any number of packers, every operation sequence, timer pattern and callback-failure pattern, (ids handed to the callback) ++ (ids still buffered) is exactly the received sequence per packer; ClearMsgs hands over everything; the global counter equals the buffered bytes (zero when all buffers are empty); a callback error is the call's result. The model is run against the real packers (global protector reset through hook H4) on 3000 generated sequences per run, and a checker for the property is evaluated on the implementation's own callback log.",
+        "level_note": "Trusted: Coq kernel + VM; the Go harness (fake TsMsg with a chosen Size()). The timer is an oracle bit: forced by configuration (interval 1 h = never; 20 ms with measured sleeps = fires), ambiguous timings are discarded and counted. The consumer loop in server/cdc_impl.go that calls Receive/ClearMsgs is covered under C05, not here.",
+        "rule": "1..3 packers sharing the global protector; thresholds from {default,1,2,3,5} x {default,1,2,4} KB x {default,4,8,16} KB; 1..24 operations (Receive of a pack made of 0..3 messages with sizes incl. 0 and oversize, ClearMsgs, callback failing in ~20% of the calls, 1/3 of the cases end with a shutdown clear of every packer; 1/40 of the cases run with a 20 ms timer and forced firings); compared: every callback invocation (packer, ids in order), the error of every call, the global counter after every call; non-trivial = at least two callback invocations, distinct by (config, ops)",
+        "assumptions": ["Receive/ClearMsgs of one packer are not called concurrently (one consumer goroutine per channel, as in startReplicateDMLMsg)",
+                        "message sizes are non-negative and sums stay below 2^63 (Go int modelled as Z)"],
     },
 }
